@@ -289,6 +289,10 @@ func (r ImportReplacer) Replace(d data.Data, cl Changelog, f *ast.File) (string,
 type ImportsReplacer struct {
 	Imports []ImportReplacer
 	Fset    *token.FileSet
+
+	// Paths of the imports that the patch has on both sides, in the same
+	// form: context lines, which the change requires and keeps.
+	Kept map[string]bool
 }
 
 func (c *replacerCompiler) compileImports(imps []*ast.ImportSpec) ImportsReplacer {
@@ -333,6 +337,13 @@ func (r ImportsReplacer) Cleanup(d data.Data, f *ast.File, newNames []string) er
 
 	// Delete matched imports that are no longer used.
 	for _, imp := range impData.MatchedImports {
+		if r.Kept[imp] {
+			// The patch does not remove this import, it only requires
+			// it. Whether the file still uses it is not for us to
+			// guess from the last element of its path.
+			continue
+		}
+
 		var importName, pkgName string
 
 		if idata := new(importData); data.Lookup(d, importKey(imp), idata) {
